@@ -177,6 +177,26 @@ func c06Sim(r *simcore.Run) {
 		)
 		action := s.Draw(10, "action")
 		switch {
+		case !exists && len(model.order) > 0 && action >= 7 && action <= 8:
+			// a rule set moves to another source (a file renamed, a RuleSet resource deleted and created again under a
+			// new UID): the old source reports the removal, the new one the very same rules
+			donor := model.order[s.Draw(len(model.order), "moved-from")]
+			next = vCloneRules(model.sets[donor])
+			if derr := proc.OnDeleted(vDeletion(s.Draw(3, "deletion-shape"), donor, model.sets[donor])); derr != nil {
+				r.Fail("delete-rejected", "delete", "the deletion of %s was rejected: %v", donor, derr)
+				continue
+			}
+			delete(model.sets, donor)
+			for i, o := range model.order {
+				if o == donor {
+					model.order = append(model.order[:i], model.order[i+1:]...)
+					break
+				}
+			}
+			before = w.vector(live)
+			kind = "create-moved"
+			rs := vRuleSet(src, next)
+			apply = func() error { return proc.OnCreated(rs) }
 		case !exists:
 			n := 1 + s.Draw(4, "nrules")
 			for i := 0; i < n; i++ {
